@@ -41,6 +41,10 @@ def gram_problem(rng):
             X[i, j] = rng.choice([-1.0, 1.0])
     if p >= 2 and rng.random() < 0.2:
         X[:, 1] = X[:, 0]                                   # duplicated column
+    elif p >= 2 and rng.random() < 0.4:
+        X[:, 1] = X[:, 0]                                   # strongly correlated pair: equal except one entry
+        i = rng.randrange(n)
+        X[i, 1] = -X[i, 1] if X[i, 1] != 0 else 1.0
     y = np.array([rng.choice([k / 2 for k in range(-12, 13)]) for _ in range(n)])
     return X, y
 
@@ -81,7 +85,9 @@ def make_gram_cases(rng, n):
         # tol = 0 only where the arithmetic is exact in binary64 (dyadic data, power-of-two steps): there the float run and
         # the exact run take the same decisions at stop_crit == 0
         exact = pname in ("L1", "WeightedL1", "IndicatorBox", "PositiveConstraint")
-        cfg = dict(max_iter=rng.choice([0, 1, 2, 3, 5, 8]), use_acc=rng.random() < 0.5, greedy=rng.random() < 0.4,
+        use_acc = rng.random() < 0.6
+        cfg = dict(max_iter=rng.choice([4, 5, 7, 8, 9, 12] if use_acc and rng.random() < 0.7 else [0, 1, 2, 3, 5, 8]), use_acc=use_acc,
+                   greedy=rng.random() < (0.15 if use_acc else 0.5),
                    tol=rng.choice(([0.0, 0.0] if exact else []) + [2 ** -30, 2 ** -30, 2 ** -12, 2 ** -4, 0.5]))
         w_init = None
         if rng.random() < 0.4:
@@ -375,7 +381,7 @@ SOLVER_SOURCES = ["skglm/solvers/gram_cd.py", "skglm/solvers/group_bcd.py", "skg
 def solver_corr(tier, rng, tag):
     """all skeleton correspondences of this module; returns a dict to be merged by `merge_corr`"""
     import tvlib
-    n = 40 if tier == "quick" else 400
+    n = 150 if tier == "quick" else 1500
     cases, dist = make_gram_cases(rng, n)
     r = tvlib.run_cases(cases, GRAM_IMPORTS, tag + "g", shard=10, jobs=16)
     nb = 300 if tier == "quick" else 2500
